@@ -1,7 +1,7 @@
 //! Grammar-based generator of SQL queries inside the supported and *portable* fragment
 //! (constructs that mean the same on SQLite and PostgreSQL), over a generated catalogue.
 use crate::gen::catalog::*;
-use crate::util::Rng;
+use crate::util::{hash64, Rng};
 use qrlew::data_type::value::Value;
 use qrlew::data_type::DataType;
 
@@ -318,7 +318,14 @@ fn gen_from(r: &mut Rng, cat: &Catalog, feats: &mut Vec<&'static str>, allow_cte
             } else {
                 let lc = if t1.col("ref").is_some() && r.bool() { "ref" } else { "id" };
                 let rc = if t2.col("ref").is_some() && r.bool() { "ref" } else { "id" };
-                let mut on = format!("{}.{} = {}.{}", a1, lc, a2, rc);
+                // the key equality is written in either order (`l.x = r.y` or `r.y = l.x`); the order is a
+                // function of the shape (not a fresh draw), so the rest of the case is unchanged
+                let mut on = if hash64(&(kind, lc, rc, &t1.name, &t2.name)) % 2 == 1 {
+                    feats.push("join_on_reversed");
+                    format!("{}.{} = {}.{}", a2, rc, a1, lc)
+                } else {
+                    format!("{}.{} = {}.{}", a1, lc, a2, rc)
+                };
                 if r.chance(1, 4) {
                     let s = Scope { cols: cols.clone() };
                     on = format!("{} AND {}", on, predicate(r, &s, 0, feats));
